@@ -71,7 +71,7 @@ func NewSys(meta Meta, seed int64, init any) (Sys, error) {
 		return newStepsSys(meta, seed, init)
 	case "dispatch":
 		return newDispatchSys(meta, seed, init)
-	case "framer", "bindreply":
+	case "framer", "framer1600", "bindreply":
 		return newFramerSys(meta, seed, init)
 	}
 
@@ -555,6 +555,9 @@ func NewWorld(meta Meta, seed int64) (*World, error) {
 	cfg := turn.ServerConfig{
 		Realm: realm,
 		AuthHandler: func(ra *turn.RequestAttributes) (string, []byte, bool) {
+			if w.gate != nil {
+				w.gate("callout.auth")
+			}
 			if !users[ra.Username] {
 				return "", nil, false
 			}
@@ -1165,6 +1168,38 @@ func (w *World) do1(a map[string]any, wait func()) (obs []Obs, retry bool, err e
 			attrs = append(attrs, proto.ReservationToken([]byte(tok)))
 		}
 		w.sendFromClient(c, w.authed(u, w.curTxid, stun.MethodAllocate, attrs...))
+	case "AllocateLostWrite":
+		// the server's next write toward this client fails (once): the success response is never sent
+		// (with a fresh nonce: a 438 could not be seen and repeated here)
+		if err := w.mintNonce(wait); err != nil {
+			return nil, false, err
+		}
+		w.curTxid = w.txid(c + "/" + a["tx"].(string))
+		lis := w.listen4
+		if w.listenAddr[c] == w.listen6.addr {
+			lis = w.listen6
+		}
+		ca := w.clientAddr[c]
+		armed := true
+		lis.WriteErr = func(_ []byte, to net.Addr) error {
+			if ua, ok := to.(*net.UDPAddr); ok && armed && ua.IP.Equal(ca.IP) && ua.Port == ca.Port {
+				armed = false
+
+				return errInjectedWrite
+			}
+
+			return nil
+		}
+		w.sendFromClient(c, w.authed(u, w.curTxid, stun.MethodAllocate, proto.RequestedTransport{Protocol: proto.ProtoUDP}))
+		wait()
+		lis.WriteErr = nil
+		// the client never saw the relayed address; the harness reads it from the table to attribute later traffic
+		if st := w.Project().C[c]; st.Live {
+			if ra, err := net.ResolveUDPAddr("udp", st.Relay); err == nil {
+				w.relayOwner[key(ra)] = c
+				w.relayOf[c] = ra
+			}
+		}
 	case "Refresh":
 		attrs := []stun.Setter{}
 		if lr := toInt(a["lr"]); lr >= 0 {
